@@ -690,13 +690,15 @@ PLANS = {
                 'points, integers around the value in every width/signedness that holds them) + specials (zeros, infinities, quiet and '
                 'signalling NaNs, subnormals, extremes, 2^24/2^53/2^63 boundaries) for every small posit/cfloat/fixpnt/integer '
                 'configuration; sampled for the large ones. non-trivial = all; distinct = distinct lines',
-        'assumptions': ['lns conversion is judged by an acceptance predicate with certified enclosures (LnsModel.l_conv_accept): the nearest log-domain value, or its neighbour when the source is within (|log2 x| + 2) 2^-50 (relative) of the log-domain midpoint; dd / qd sources: leading component only (C10 covers the dd/qd constructors from double)'],
+        'assumptions': ['lns conversion is judged by an acceptance predicate with certified enclosures (LnsModel.l_conv_accept): the nearest log-domain value, or its neighbour when the source is within (|log2 x| + 2) 2^-50 (relative) of the log-domain midpoint; '],
         'streams': [exh('posit_from_exh', 'posit_small', 'from'), rnd('posit_from_rnd', 'posit_large', 'from', 400, 8000, shards=23)] +
                    [exh('cfloat_from_exh%d' % k, 'cfloat_s%d' % k, 'from') for k in range(4)] +
                    [rnd('cfloat_from_rnd%d' % k, 'cfloat_s%d' % k, 'from', 400, 8000, shards=4) for k in (10, 11, 12)] +
                    [exh('fixpnt_from_exh', 'fixpnt_small', 'from'), rnd('fixpnt_from_rnd', 'fixpnt_large', 'from', 300, 6000, shards=16),
                     exh('integer_from_exh', 'integer_small', 'from'), rnd('integer_from_rnd', 'integer_large', 'from', 300, 6000, shards=16),
-                    exh('lns_from_exh', 'lns_small', 'from'), rnd('lns_from_rnd', 'lns_large', 'from', 60, 1500, shards=16)],
+                    exh('lns_from_exh', 'lns_small', 'from'), rnd('lns_from_rnd', 'lns_large', 'from', 60, 1500, shards=16),
+                    {'name': 'dd_qd_from', 'driver': 'dd_all', 'what': 'dd and qd constructed / assigned (onto an object holding junk) from 64- and 32-bit integers, doubles and floats: components must sum exactly to the source and be normalised',
+                     'runs': {'quick': [dict(args=['--mode', 'from', '--count', '2000'], shards=8)], 'thorough': [dict(args=['--mode', 'from', '--count', '40000'], shards=8)]}}],
     },
     'C04': {
         'level': 'proof', 'coq': 'Properties_C04', 'pregen': ['gen_tables.py'],
